@@ -337,7 +337,7 @@ func TestC14(t *testing.T) {
 	env := col.Env
 
 	g := c14Graph.On(col, "rapid: acyclic include graphs (chains up to depth 4 in the top template's directory, leaves in nested sub-directories and above the directory (../up.html), the same base name in several directories with distinct content; for a third of the cases a second top-level template in the sub-directory d1 is rendered on the same engine afterwards and reaches the same files under other relative names) laid out in a fresh temporary directory per case; every file is independently on disk, only registered through ParseTemplateAndCache, both with different content, zero bytes on disk with cached source, or missing; include arguments spelled as double/single-quoted literals, bound variables, variables assigned earlier in the render and filtered expressions; bodies print bound and includer-assigned variables, loop and branch. Metamorphic oracle: render(T) = render(T with every include replaced, recursively, by the content the statement selects: disk over cache), same path and bindings; a missing file fails the render with no output; an error inside an included template fails both. Non-trivial: an include resolved from a nested directory, from the cache, or with disk and cache disagreeing; distinct by layout", false)
-	texts := []string{"t", " [{{ n }}] ", "{{ s | upcase }}", "{% assign pv = n | plus: 1 %}{{ pv }}", "{% if n == 1 %}one{% else %}other{% endif %}", "{% for q in a %}{{ q }},{% endfor %}", "{{ shared }}", "\n", "{% assign shared = \"set-by-includer\" %}", "{{ 1 | divided_by: n }}",
+	texts := []string{"t", " [{{ n }}] ", "{{ s | upcase }}", "{% assign pv = n | plus: 1 %}{{ pv }}", "{% if n == 1 %}one{% else %}other{% endif %}", "{% for q in a %}{{ q }},{% endfor %}", "{{ shared }}", "\n", "{% assign shared = \"set-by-includer\" %}", "{{ 1 | divided_by: n }}", "20% off %d %s%%", "{% raw %}{% if x %}{% endraw %}",
 		"  "}
 	// whitespace control at the outer edge of a file: the first piece of a file may begin, the last may end, with a hyphenated
 	// tag (facing the file's boundary); an includer has white space next to the include tag. A hyphen that faces an
